@@ -27,12 +27,14 @@ Inductive outcome := Reply (p : N) | Timeout | Error | Sent (* one-way: the requ
 Inductive pc :=
 | Init      (* TarsInvoke entered, ctx derived *)
 | Pre       (* after manager.preInvoke: invokeNum+1 *)
-| Reg       (* after queueLen+1 and resp.Store(id, readCh); about to Send -> ReConnect -> connLock.Lock *)
+| Counted   (* after atomic.AddInt32(&queueLen, 1), before resp.Store *)
+| Reg       (* after resp.Store(id, readCh); about to Send -> ReConnect -> connLock.Lock *)
 | Dialing   (* holds connLock inside net.DialTimeout *)
 | Enq       (* ReConnect done; in the select { timer ; sendQueue <- msg } of TarsClient.Send *)
 | Waiting   (* in the select { ctx.Done ; readCh } of doInvoke *)
 | Done      (* outcome decided; deferred cleanup not yet run *)
-| Cleaned   (* queueLen-1, resp.Delete(id) done; before manager.postInvoke *)
+| Uncounted (* deferred cleanup: after atomic.AddInt32(&queueLen, -1), before resp.Delete *)
+| Cleaned   (* resp.Delete(id) done; before manager.postInvoke *)
 | Returned.
 
 Record call := mkcall {
@@ -70,7 +72,8 @@ Inductive label :=
 | LSendTake | LConnDown
 | LPeerPkt (id pay : N) | LLookup (r : nat) | LDeliver (r : nat) | LGiveUp (r : nat)
 | LIdleClose
-| LCancel (i : nat) | LFilterErr (i : nat).
+| LCancel (i : nat) | LFilterErr (i : nat)
+| LCount (i : nat) | LUncount (i : nat).
 
 Fixpoint upd {A} (l : list A) (i : nat) (x : A) : list A :=
   match l, i with
@@ -110,7 +113,7 @@ Definition is_waiting (s : state) (j : nat) : bool :=
 (* ---------- urgency: a goroutine has an enabled local action ---------- *)
 Definition call_urgent (c : cfg) (s : state) (k : call) : bool :=
   match k_pc k with
-  | Init | Pre | Done | Cleaned => true
+  | Init | Pre | Counted | Done | Uncounted | Cleaned => true
   | Reg => match lock s with None => true | Some _ => false end
   | Dialing => k_t0 k + dialT c <=? now s
   | Enq => (N.of_nat (length (sendq s)) <? qcap c) || ((0 <? writeT c) && (k_t0 k + writeT c <=? now s))
@@ -138,11 +141,10 @@ Definition step (c : cfg) (s : state) (l : label) : option state :=
                   | Init => Some (mkst (now s) (upd (calls s) i (set_pc k Pre)) (rcvs s) (queueLen s) (invokeNum s + 1)%Z (resp s) (conn_open s) (lock s) (sendq s) (wire s) (sent s) (tr s))
                   | _ => None end
       | None => None end
-  | LReg i =>
+  | LReg i =>   (* adp.resp.Store(id, readCh) *)
       match nth_error (calls s) i with
       | Some k => match k_pc k with
-                  | Pre => if (qmax c <? queueLen s)%Z then None
-                           else Some (mkst (now s) (upd (calls s) i (set_pc k Reg)) (rcvs s) (queueLen s + 1)%Z (invokeNum s) (i :: resp s) (conn_open s) (lock s) (sendq s) (wire s) (sent s) (tr s))
+                  | Counted => Some (mkst (now s) (upd (calls s) i (set_pc k Reg)) (rcvs s) (queueLen s) (invokeNum s) (i :: resp s) (conn_open s) (lock s) (sendq s) (wire s) (sent s) (tr s))
                   | _ => None end
       | None => None end
   | LQueueFull i =>   (* "invoke queue is full": returns before anything is registered *)
@@ -204,10 +206,10 @@ Definition step (c : cfg) (s : state) (l : label) : option state :=
                   | Waiting => if k_dl k <=? now s then Some (with_calls s (upd (calls s) i (set_out k Timeout (k_e k)))) else None
                   | _ => None end
       | None => None end
-  | LClean i =>
+  | LClean i =>   (* deferred: adp.resp.Delete(id) *)
       match nth_error (calls s) i with
       | Some k => match k_pc k with
-                  | Done => Some (mkst (now s) (upd (calls s) i (set_pc k Cleaned)) (rcvs s) (queueLen s - 1)%Z (invokeNum s) (remove_nat i (resp s)) (conn_open s) (lock s) (sendq s) (wire s) (sent s) (tr s))
+                  | Uncounted => Some (mkst (now s) (upd (calls s) i (set_pc k Cleaned)) (rcvs s) (queueLen s) (invokeNum s) (remove_nat i (resp s)) (conn_open s) (lock s) (sendq s) (wire s) (sent s) (tr s))
                   | _ => None end
       | None => None end
   | LPost i =>
@@ -271,6 +273,19 @@ Definition step (c : cfg) (s : state) (l : label) : option state :=
       match nth_error (calls s) i with
       | Some k => match k_pc k with
                   | Waiting => Some (with_calls s (upd (calls s) i (set_out k Cancelled (k_e k))))
+                  | _ => None end
+      | None => None end
+  | LCount i =>   (* the queue-limit check passed: atomic.AddInt32(&s.queueLen, 1) *)
+      match nth_error (calls s) i with
+      | Some k => match k_pc k with
+                  | Pre => if (qmax c <? queueLen s)%Z then None
+                           else Some (mkst (now s) (upd (calls s) i (set_pc k Counted)) (rcvs s) (queueLen s + 1)%Z (invokeNum s) (resp s) (conn_open s) (lock s) (sendq s) (wire s) (sent s) (tr s))
+                  | _ => None end
+      | None => None end
+  | LUncount i =>   (* deferred: atomic.AddInt32(&s.queueLen, -1) *)
+      match nth_error (calls s) i with
+      | Some k => match k_pc k with
+                  | Done => Some (mkst (now s) (upd (calls s) i (set_pc k Uncounted)) (rcvs s) (queueLen s - 1)%Z (invokeNum s) (resp s) (conn_open s) (lock s) (sendq s) (wire s) (sent s) (tr s))
                   | _ => None end
       | None => None end
   | LFilterErr i =>   (* a client filter returns an error without invoking: nothing is registered, postInvoke still runs *)
@@ -366,10 +381,11 @@ Definition want_start (sc : scen) (s : state) : bool :=
 Definition call_label_r (rejected : bool) (c : cfg) (s : state) (i : nat) (k : call) : label :=
   match k_pc k with
   | Init => LPre i
-  | Pre => if rejected then LFilterErr i else if (qmax c <? queueLen s)%Z then LQueueFull i else LReg i
+  | Pre => if rejected then LFilterErr i else if (qmax c <? queueLen s)%Z then LQueueFull i else LCount i
+  | Counted => LReg i
   | Reg => LLock i | Dialing => LDialTimeout i
   | Enq => if N.of_nat (length (sendq s)) <? qcap c then LEnq i else LEnqTimeout i
-  | Waiting => LCtxFire i | Done => LClean i | Cleaned => LPost i | Returned => Tick
+  | Waiting => LCtxFire i | Done => LUncount i | Uncounted => LClean i | Cleaned => LPost i | Returned => Tick
   end.
 Definition is_rejected (n i : nat) : bool := match n with O => false | S m => Nat.eqb (Nat.modulo i n) m end.
 Definition rcv_label (s : state) (r : nat) (x : rcv) : label :=
@@ -577,13 +593,13 @@ Definition accepts (es : list event) : bool :=
   end.
 
 (* ---------- the model's own runs, seen through the same observation points ----------
-   pre-filter = just before doInvoke registers (LReg / LQueueFull), post-filter = after the deferred cleanup (LClean, or
+   pre-filter = just before doInvoke's first instruction (LCount / LQueueFull / LFilterErr), post-filter = after the deferred cleanup (LClean, or
    LQueueFull which has none), return = LPost with the counters as they are then, peer receive = the sender's write,
    peer send = LPeerPkt *)
 Definition events_of (s : state) (l : label) (s' : state) : list event :=
   match l with
   | Start _ _ => [EStart (length (calls s))]
-  | LReg i => [EPre i (id_of i)]
+  | LCount i => [EPre i (id_of i)]
   | LQueueFull i | LFilterErr i => [EPre i (id_of i); EPost i]
   | LClean i => [EPost i]
   | LPost i => match nth_error (calls s') i with
